@@ -27,6 +27,11 @@ def main(argv):
             bad += 1
             continue
         discharge(r.obligations)
+        can = [o for o in r.obligations if o.kind.startswith("canary")]
+        r.obligations = [o for o in r.obligations if not o.kind.startswith("canary")]
+        if can and all(o.status == "unsat" for o in can):
+            print(f"   VACUOUS: all canaries of {q} refuted")
+            bad += 1
         n = len(r.obligations)
         ok = sum(1 for o in r.obligations if o.status in ("unsat", "trivial"))
         tm = sum(o.time_ms or 0 for o in r.obligations)
